@@ -364,6 +364,10 @@ def script_id(o):
         return s
     if s.startswith("full_queue_end"):
         return "fullqueue:0"
+    if s.startswith("idle_fires_while_busy"):
+        return "idlebusy:0"
+    if s.startswith("stall_keeps_sending"):
+        return "stall:2"
     if s.startswith("burst_mixed"):
         return "burstmix:%d" % p
     if s.startswith("burst_joined"):
